@@ -1,6 +1,7 @@
 (* C14 — the debugger command language is total, unambiguous and transport-independent. *)
 From Coq Require Import List NArith ZArith Bool String.
 From Lace Require Import CmdSpec Cmd CmdProofs.
+From Lace Require Dbg DebugText DebugTextProofs.
 Import ListNotations.
 Open Scope N_scope.
 
@@ -112,6 +113,47 @@ Theorem C14_one_command : forall line cmd cmd', nodelim line ->
   LineSyn line cmd -> LineSyn line cmd' -> cmd = cmd'.
 Proof. exact LineSyn_unambiguous. Qed.
 Print Assumptions C14_one_command.
+
+(** The whole debugger, not only the parser: `lace debug` with the script as TEXT (model DebugText.v =
+    readers + command parser + debugger + VM + assembler) gives the same session — machine, console,
+    breakpoints, debugger output, counters — whether the script arrives in `--command`, on standard
+    input or split across both at any separator, and whether `;` or newlines separate the commands. *)
+Theorem C14_debug_transport : forall feat src inp fuel,
+  (forall s, DebugText.debug_text feat src inp (Some s) [] fuel = DebugText.debug_text feat src inp None s fuel) /\
+  (forall a d b, is_delim d = true ->
+     DebugText.debug_text feat src inp (Some a) b fuel = DebugText.debug_text feat src inp None (a ++ d :: b) fuel /\
+     DebugText.debug_text feat src inp (Some a) b fuel = DebugText.debug_text feat src inp (Some (a ++ d :: b)) [] fuel /\
+     DebugText.debug_text feat src inp (Some (a ++ [d])) b fuel = DebugText.debug_text feat src inp (Some a) b fuel) /\
+  (forall f, sep_renaming f -> forall arg stdin,
+     DebugText.debug_text feat src inp (option_map (map f) arg) (map f stdin) fuel =
+     DebugText.debug_text feat src inp arg stdin fuel).
+Proof. exact DebugTextProofs.debug_text_transport. Qed.
+Print Assumptions C14_debug_transport.
+
+(** What the debugger executes for a script text: per line, the command the documented grammar gives
+    it (values as 16-bit patterns), or the pseudo-command [CBad] for a rejected line ... *)
+Theorem C14_debug_script : forall arg stdin,
+  DebugText.script_of_text arg stdin =
+  DebugTextProofs.script_of_lines (script_lines (arg_text arg) ++ script_lines stdin).
+Proof. exact DebugTextProofs.script_of_text_lines. Qed.
+Print Assumptions C14_debug_script.
+
+Theorem C14_debug_line : forall line c, nodelim line -> LineSyn line c ->
+  DebugTextProofs.script_of_lines [line] = [DebugText.conv_cmd c].
+Proof. exact DebugTextProofs.line_is_command. Qed.
+Print Assumptions C14_debug_line.
+
+(** ... and a rejected line has no effect: `CommandError` is reported; machine, breakpoints, status
+    and saved initial state are untouched, no action is raised, no command is counted. *)
+Theorem C14_debug_rejected : forall line e env d st, try_from line = Err e ->
+  DebugTextProofs.script_of_lines [line] = [Dbg.CBad] /\
+  Dbg.run_command env Dbg.CBad d st = Dbg.CmdNone (Dbg.say (Dbg.set_icount d 0) Dbg.L_COMMAND_ERROR) st /\
+  Dbg.cmd_cost Dbg.CBad = 0.
+Proof.
+  intros line e env d st H. split; [exact (DebugTextProofs.line_is_rejected line e H)|].
+  exact (DebugTextProofs.bad_line_step env d st).
+Qed.
+Print Assumptions C14_debug_rejected.
 
 (** Non-vacuity. *)
 Example C14_nonvacuous_int :
